@@ -598,48 +598,54 @@ class Visitor(ast.NodeVisitor):
         return result
 
     def visit_Compare(self, node: ast.Compare) -> Any:
-        """Recursively visit the comparators and apply the operations on them."""
+        """Recursively visit the comparators as long as Python would evaluate them and apply the operations on them."""
         left = self.visit(node=node.left)
 
-        comparators = [self.visit(node=comparator) for comparator in node.comparators]
-
         # Please see "NOTE ABOUT PLACEHOLDERS AND RE-COMPUTATION"
-        if left is PLACEHOLDER or any(
-            comparator is PLACEHOLDER for comparator in comparators
-        ):
-            return PLACEHOLDER
+        seen_placeholder = left is PLACEHOLDER
 
         result = None  # type: Optional[Any]
-        for comparator, op in zip(comparators, node.ops):
+        for i, (comparator_node, op) in enumerate(zip(node.comparators, node.ops)):
+            comparator = self.visit(node=comparator_node)
+
+            if comparator is PLACEHOLDER:
+                seen_placeholder = True
+
+            # We can not compare nor short-circuit after a placeholder as its value is unknown.
+            if seen_placeholder:
+                continue
+
             if isinstance(op, ast.Eq):
-                comparison = left == comparator
+                result = left == comparator
             elif isinstance(op, ast.NotEq):
-                comparison = left != comparator
+                result = left != comparator
             elif isinstance(op, ast.Lt):
-                comparison = left < comparator
+                result = left < comparator
             elif isinstance(op, ast.LtE):
-                comparison = left <= comparator
+                result = left <= comparator
             elif isinstance(op, ast.Gt):
-                comparison = left > comparator
+                result = left > comparator
             elif isinstance(op, ast.GtE):
-                comparison = left >= comparator
+                result = left >= comparator
             elif isinstance(op, ast.Is):
-                comparison = left is comparator
+                result = left is comparator
             elif isinstance(op, ast.IsNot):
-                comparison = left is not comparator
+                result = left is not comparator
             elif isinstance(op, ast.In):
-                comparison = left in comparator
+                result = left in comparator
             elif isinstance(op, ast.NotIn):
-                comparison = left not in comparator
+                result = left not in comparator
             else:
                 raise NotImplementedError("Unhandled op of {}: {}".format(node, op))
 
-            if result is None:
-                result = comparison
-            else:
-                result = result and comparison
+            # Short-circuit the chain as Python does
+            if i < len(node.ops) - 1 and not result:
+                break
 
             left = comparator
+
+        if seen_placeholder:
+            return PLACEHOLDER
 
         self.recomputed_values[node] = result
         return result
